@@ -1819,6 +1819,12 @@ class Item:
             out.append((tag, repl, self.line_of(s)))
             last = e
         out.append(("src", self.text[last:], self.line_of(last)))
+        # `forbid "<regex>" "<why>"`: a construct that needs a shim and would reach the verifier without one (an optional redirection
+        # did not apply to it) makes the unit UNDECIDED -- an unmodelled construct must never surface as a failed obligation
+        woven = "".join(x[1] for x in out)
+        for rx, why in getattr(self, "forbidden", []):
+            if re.search(rx, woven, re.S):
+                raise Undecided("unsupported construct (%s) in %s" % (why, self.where()))
         return out
 
 
@@ -2134,6 +2140,8 @@ def build_unit(unit_path, repo=REPO):
                 # liftwrap <fn> "<impl header {>": lifted fns of fn are emitted in front of the item inside this inherent impl block
                 it.lift_wrap = getattr(it, "lift_wrap", {})
                 it.lift_wrap[args[0]] = args[1]
+            elif name == "forbid":
+                it.forbidden = getattr(it, "forbidden", []) + [(args[0], args[1] if len(args) > 1 else "no shim")]
             elif name in ("liftR4", "liftR4opt"):
                 # liftR4 <fn> "<old>" "<new>": an R4 redirection applied inside the closure body that a lift shape lifts (opt: may be absent)
                 it.lift_r4 = getattr(it, "lift_r4", {})
